@@ -767,3 +767,97 @@ func Short(s string) string {
 	}
 	return s
 }
+
+// ---------------------------------------------------------------------------------------------
+// independent read-back of a whole UnixFS tree
+
+// Tree is what an independent walk over the stored blocks finds at one link.
+type Tree struct {
+	Link     string
+	Kind     string // "file", "dir" (plain or HAMT, flattened), "symlink", "other"
+	Sharded  bool
+	Content  []byte            // file bytes / symlink target
+	Names    []string          // entry names in stored (depth-first link) order, prefixes stripped
+	Children map[string]*Tree  // by entry name (first occurrence)
+	EntryCid map[string]string // entry name -> CID string recorded in the directory's link
+	Tsize    map[string]uint64 // entry name -> Tsize recorded in the directory's link
+	Problems []string          // duplicate / nameless entries and the like
+}
+
+// ReadTree reads the UnixFS tree under l using only protowire + gogo unixfs_pb.
+func (s *Store) ReadTree(l datamodel.Link) (*Tree, error) {
+	t := &Tree{Link: l.String()}
+	if !IsPB(l) {
+		raw, ok := s.Raw(l)
+		if !ok {
+			return nil, fmt.Errorf("block %s not stored", l)
+		}
+		t.Kind, t.Content = "file", raw
+		return t, nil
+	}
+	b, _, err := s.Block(l)
+	if err != nil {
+		return nil, err
+	}
+	u, err := b.UnixFS()
+	if err != nil {
+		t.Kind = "other"
+		return t, nil
+	}
+	switch u.GetType() {
+	case upb.Data_File, upb.Data_Raw:
+		t.Kind = "file"
+		t.Content, _, _, err = s.FileSpans(l)
+		return t, err
+	case upb.Data_Symlink:
+		t.Kind, t.Content = "symlink", u.Data
+		return t, nil
+	case upb.Data_Directory, upb.Data_HAMTShard:
+		t.Kind, t.Sharded = "dir", u.GetType() == upb.Data_HAMTShard
+		t.Children, t.EntryCid, t.Tsize = map[string]*Tree{}, map[string]string{}, map[string]uint64{}
+		var collect func(b PBBlock, u *upb.Data) error
+		collect = func(b PBBlock, u *upb.Data) error {
+			pad := 0
+			if u.GetType() == upb.Data_HAMTShard {
+				pad = len(fmt.Sprintf("%X", u.GetFanout()-1))
+			}
+			for _, k := range b.Links {
+				if !k.HasName || len(k.Name) < pad {
+					t.Problems = append(t.Problems, fmt.Sprintf("link without usable name %q", k.Name))
+					continue
+				}
+				if pad > 0 && len(k.Name) == pad {
+					cb, _, err := s.Block(k.Link())
+					if err != nil {
+						return err
+					}
+					cu, err := cb.UnixFS()
+					if err != nil || cu.GetType() != upb.Data_HAMTShard {
+						return fmt.Errorf("child shard %s is not a HAMT shard", k.Link())
+					}
+					if err := collect(cb, cu); err != nil {
+						return err
+					}
+					continue
+				}
+				name := k.Name[pad:]
+				t.Names = append(t.Names, name)
+				if _, dup := t.Children[name]; dup {
+					t.Problems = append(t.Problems, fmt.Sprintf("duplicate entry %q", name))
+					continue
+				}
+				child, err := s.ReadTree(k.Link())
+				if err != nil {
+					return fmt.Errorf("%s: %w", name, err)
+				}
+				t.Children[name] = child
+				t.EntryCid[name] = k.Cid.String()
+				t.Tsize[name] = k.Tsize
+			}
+			return nil
+		}
+		return t, collect(b, u)
+	}
+	t.Kind = "other"
+	return t, nil
+}
